@@ -72,6 +72,11 @@ pub fn run(outdir: &str, seed: u64, thorough: bool) -> serde_json::Value {
         ("distinct-one", "SELECT DISTINCT t.status AS s FROM orders AS t WHERE t.amount > {k}"),
         ("cte", "WITH w AS (SELECT t.id AS i, t.age AS a FROM users AS t WHERE t.age > {k}0) SELECT w.a AS a, o.amount AS m FROM w JOIN orders AS o ON w.i = o.user_id"),
         ("cte-two", "WITH w AS (SELECT t.user_id AS u, SUM(t.amount) AS s FROM orders AS t GROUP BY t.user_id), v AS (SELECT w.u AS u FROM w WHERE w.s > {k}0) SELECT u.age AS a FROM users AS u JOIN v ON u.id = v.u"),
+        // the same CTE name at two nesting levels: the inner declaration hides the outer one
+        ("cte-shadow", "WITH v AS (SELECT t.age AS a FROM users AS t) SELECT s.a AS a FROM (WITH v AS (SELECT o.user_id AS a FROM orders AS o WHERE o.amount > {k}) SELECT v.a AS a FROM v) AS s"),
+        ("cte-shadow-join", "WITH v AS (SELECT t.id AS i, t.age AS a FROM users AS t) SELECT s.a AS a, v.a AS b FROM (WITH v AS (SELECT o.user_id AS a FROM orders AS o) SELECT v.a AS a FROM v) AS s JOIN v ON s.a = v.i"),
+        ("cte-shadow-in-cte", "WITH v AS (SELECT t.age AS a FROM users AS t), w AS (WITH v AS (SELECT o.user_id AS a FROM orders AS o) SELECT v.a AS a FROM v) SELECT w.a AS a FROM w"),
+        ("join-on-or", "SELECT u.id AS i, o.id AS j FROM users AS u JOIN orders AS o ON u.id = o.user_id OR u.age > {k}0"),
         ("using", "SELECT * FROM users AS a JOIN orders AS b USING (id)"),
         ("using-left", "SELECT * FROM orders AS a LEFT JOIN users AS b USING (id)"),
         ("natural", "SELECT * FROM cities NATURAL JOIN users"),
